@@ -512,12 +512,18 @@ pub fn compute_swap(
             .to_uint_floor();
 
             // calculate spread, swap and protocol fees
-            let exchange_rate = Decimal256::checked_from_ratio(ask_pool_amount, offer_pool_amount)
-                .map_err(|_| ContractError::PoolHasNoAssets)?;
-            let slippage_amount: Uint256 = (Decimal256::from_ratio(offer_amount, Uint256::one())
-                .checked_mul(exchange_rate)?
-                .to_uint_floor())
-            .checked_sub(return_amount)?;
+            ensure!(
+                !offer_pool_amount.is_zero(),
+                ContractError::PoolHasNoAssets
+            );
+            // the return at the pre-trade pool price, floor(offer_amount * ask_pool / offer_pool), by exact
+            // division. Going through the exchange rate truncated to 18 decimals loses most of its
+            // significant digits when ask_pool / offer_pool is tiny in base units (a cheap 18 decimals
+            // asset offered for a 6 decimals one), which understates the slippage or, for small swaps,
+            // makes the subtraction below fail.
+            let ideal_return_amount: Uint256 =
+                offer_amount.checked_multiply_ratio(ask_pool_amount, offer_pool_amount)?;
+            let slippage_amount: Uint256 = ideal_return_amount.checked_sub(return_amount)?;
 
             let fees_computation = compute_fees(&pool_info.pool_fees, return_amount)?;
 
